@@ -16,6 +16,7 @@ import random
 import vlib
 from checks import disrupt_common as dc
 
+NMEM = {"quick": 60, "thorough": 1500}
 NCOND = {"quick": 120, "thorough": 3000}
 NEXPLORE = {"quick": 60, "thorough": 4000}
 
@@ -24,6 +25,9 @@ def closed_models(run):
     r = run.closed_model("Disruption", "Disruption_MC.cfg", workers=4, heap="3g", coverage=True)
     if r.coverage_zero:
         raise vlib.InfraError("vacuous closed model Disruption, actions never taken: %s" % r.coverage_zero)
+    r = run.closed_model("DisruptionMem", "DisruptionMem_MC.cfg", workers=1, heap="3g", coverage=True)
+    if r.coverage_zero:
+        raise vlib.InfraError("vacuous closed model DisruptionMem, actions never taken: %s" % r.coverage_zero)
     r = run.closed_model("DisruptionCond", "DisruptionCond_MC.cfg", workers=1, heap="3g", coverage=True)  # 1 worker: BFS order fixes the VIEW representatives
     if r.coverage_zero:
         raise vlib.InfraError("vacuous closed model DisruptionCond, actions never taken: %s" % r.coverage_zero)
@@ -31,7 +35,8 @@ def closed_models(run):
     if run.tier == "quick":
         # one TLC run per model tries every weakening (Weak = "*"); the individual Disruption_Weak_*.cfg are run in thorough
         import re
-        for mod, cfg, prefix in (("Disruption", "Disruption_WeakAll.cfg", ""), ("DisruptionCond", "DisruptionCond_WeakAll.cfg", "cond:")):
+        for mod, cfg, prefix in (("Disruption", "Disruption_WeakAll.cfg", ""), ("DisruptionCond", "DisruptionCond_WeakAll.cfg", "cond:"),
+                                 ("DisruptionMem", "DisruptionMem_WeakAll.cfg", "mem:")):
             w = run.tlc(mod, cfg, workers=4, heap="3g")
             seen = set(re.findall(r'<<"REJ", "(\w+)">>', w.stdout))
             want = {os.path.basename(c)[len(mod + "_Weak_"):-4] for c in glob.glob(os.path.join(run.specdir, mod + "_Weak_*.cfg"))}
@@ -44,6 +49,11 @@ def closed_models(run):
             if w.violated != "Inv_C07_NeverProtected":
                 raise vlib.InfraError("spec mutation %s not rejected by TLC (conjunct not load-bearing)" % os.path.basename(cfg))
             rejected.append(os.path.basename(cfg)[len("Disruption_Weak_"):-4])
+        for cfg in sorted(glob.glob(os.path.join(run.specdir, "DisruptionMem_Weak_*.cfg"))):
+            w = run.tlc("DisruptionMem", os.path.basename(cfg), workers=1, heap="2g", expect_violation=True)
+            if w.violated != "Inv_C07_MemNeverProtected":
+                raise vlib.InfraError("spec mutation %s not rejected by TLC" % os.path.basename(cfg))
+            rejected.append("mem:" + os.path.basename(cfg)[len("DisruptionMem_Weak_"):-4])
         for cfg in sorted(glob.glob(os.path.join(run.specdir, "DisruptionCond_Weak_*.cfg"))):
             w = run.tlc("DisruptionCond", os.path.basename(cfg), workers=2, heap="2g", expect_violation=True)
             if w.violated != "Inv_C07_ConsolidatableJustified":
@@ -105,6 +115,27 @@ EXPLORE_BLOCKERS = ["unmanaged", "uninitialized", "nodeGone", "marked", "claimDe
                     "pdbZeroAll", "pdbZeroNilSel",
                     "pdbZeroTolerating", "notConsolidatable", "consolidatableEdge", "consolidatableFalse", "buffer", "notDrifted",
                     "tgp"]
+
+
+def gen_mem(run):
+    """Behaviours of DisruptionMem.tla: TLC simulation (nomination windows 20 s and, in thorough, 10 s / 30 s) + the
+    systematic interval tours for every method."""
+    behs = []
+    windows = (20,) if run.tier == "quick" else (20, 10, 30)
+    for w in windows:
+        cfg = open(os.path.join(run.specdir, "DisruptionMem_Gen.cfg")).read().replace("W = 20", "W = %d" % w).replace("U = 5", "U = %d" % (w // 4))
+        name = "DisruptionMem_Gen_run%d.cfg" % w
+        open(os.path.join(run.specdir, name), "w").write(cfg)
+        got = run.generate("DisruptionMem", name, workers=1, simulate="num=%d" % (NMEM[run.tier] // len(windows)), depth=14,
+                           heap="2g", timeout=600)
+        for b in got:
+            if not isinstance(b["steps"], list):
+                b["steps"] = []
+            if dc.mem_expect(b) != bool(b["issued"]):
+                raise vlib.InfraError("DisruptionMem: TLC and the orchestrator disagree on behaviour %r" % b)
+        behs += got
+    behs += dc.mem_tours((20, 10) if run.tier == "quick" else (20, 10, 30, 12))
+    return behs
 
 
 def explorer(run, n):
@@ -169,7 +200,9 @@ def check(run):
                 "pairs with the terminationGracePeriod modifier in quick, all pairs in thorough, plus one churn blocker "
                 "during the validation wait); each cell is a cluster where node x is the method's best candidate next to an "
                 "unblocked control; the real method (incl. validation) and one real controller round run on it. "
-                "Behaviours of DisruptionCond.tla (TLC simulation + threshold tours) drive the real podevents / "
+                "Behaviours of DisruptionMem.tla (repeated nominations / mark-unmark sequences at different instants, the decision "
+                "placed in every interval, protections arriving during the validation wait; TLC simulation + interval tours, all "
+                "methods, nomination windows 20/10 s (+30/12 s in thorough)). Behaviours of DisruptionCond.tla (TLC simulation + threshold tours) drive the real podevents / "
                 "nodeclaim-disruption controllers. Seeded explorer: larger random clusters, all methods + two rounds. "
                 "non-trivial = the real trace contains a command (guarded event) or a Consolidatable=True write")
     if os.environ.get("VERIF_FAST"):     # development loop only (mutation runs): skip the closed-model part
@@ -183,6 +216,8 @@ def check(run):
         scen += [dc.cell_scenario(c, rng, again=True, variant=1) for c in cells]
     conds = gen_cond(run)
     scen += [dc.cond_scenario(b, i) for i, b in enumerate(conds)]
+    mems = gen_mem(run)
+    scen += [dc.mem_scenario(b, i) for i, b in enumerate(mems)]
     faults = fault_scenarios(run, rng)
     scen += faults
     scen += explorer(run, NEXPLORE[run.tier])
@@ -203,6 +238,11 @@ def check(run):
         panics = [e for e in s["errors"] if e["panic"]]
         if panics:
             raise vlib.InfraError("panic while running %s: %s" % (sc["name"], panics[0]))
+        if tags["kind"] == "mem":
+            hit = any("x" in c["names"] for c in s["cmds"] if c["method"] == tags["method"])
+            if tags["issued"] and not hit:
+                gaps.append(sc["name"] + "[" + tags["beh"] + "]")
+            continue
         if tags["kind"] != "cell":
             continue
         mine = [c for c in s["cmds"] if c["method"] == tags["method"]]
@@ -229,7 +269,7 @@ def check(run):
     ncell = len(cells)
     nissued = sum(1 for c in cells if c["issued"])
     run.extra_cov.update({"table_cells": ncell, "cells_model_issues": nissued, "cells_blocked_with_live_control": lively,
-                          "cond_behaviours": len(conds), "read_fault_scenarios": len(faults), "explorer_scenarios": NEXPLORE[run.tier],
+                          "cond_behaviours": len(conds), "memory_protection_behaviours": len(mems), "read_fault_scenarios": len(faults), "explorer_scenarios": NEXPLORE[run.tier],
                           "guarded_candidates_by_method": dict(guarded),
                           "consolidatable_true_writes": sum(s["ctrue_writes"] for s in summ)})
     run.exhaustive = True
